@@ -633,6 +633,7 @@ func init() {
 		Rule: "Paragraphs of 1-25 words of 1-12 letters in Ahem (10 or 20 px; every glyph and the space are 1 em wide), separated by spaces, newline characters or <br>; three in four with inline boxes nested up to 2 deep carrying left padding / right margin of 0-12 px and inline-blocks of 1-4 em with side margins; container width = every multiple of 5 px from 0 to the width of the whole text + 20 px (exact fits and one-step-short widths are reached); white-space normal/nowrap/pre/pre-wrap/pre-line, text-align left/right/center/justify/start/end, text-indent 0/20/50/-10 px, line-height 1/normal/1.5/2/25px, overflow-wrap:anywhere on plain paragraphs; pango (2/3) and go-text engines. " +
 			"Oracle: a reference greedy breaker (break opportunities at spaces when white-space wraps, forced breaks at <br> and at preserved newlines, inline-box edges stick to the adjacent word, an inline-block is one unit, anywhere: a word alone too wide takes the letters that fit) gives the words of every line; compared exactly with the laid-out line boxes (too-early, too-late and forbidden breaks all differ). Geometry per line: height = line-height, lines stack without gap or overlap, every word starts at the x the alignment, indentation, decorations and 1-em spaces give (left/right/center), justified lines start at the indentation and end at the available width. " +
 			"Inline-blocks carry a bottom padding of 0 / 6 / 14 px: a line holding one is line-height + that padding high. " +
+			"In simple paragraphs with undecorated spans a word may be cut in two by a joint between two spans. " +
 			"Non-trivial: at least two lines.",
 		ImportantLabels: []string{"lines>=2", "exact-fit", "justified-line", "text-indent", "engine:gotext", "engine:pango", "ws:pre-wrap", "ws:pre-line", "ws:pre", "ws:nowrap", "align:center", "align:right", "overflow-wrap:anywhere"},
 		Assumptions:     []string{"positions compared with tolerance 0.02 px", "positions on overflowing right/center-aligned lines are not compared"},
